@@ -43,7 +43,8 @@ EXPLANATION = (
 )
 # obligations added during the build phase (seeding rounds, twins, mutation analysis)
 ADDED_IN_BUILD = " Also: the interval generator is decided for comprehensions or appends in an inner loop; its arguments are bound by NAME at the driver's call site and every role (n, min length, max length, growth factor) must receive the driver's own quantity (none left to a default). The selector is discovered also when it receives subscripted tables; a selection that receives filtered tables violates WIRING selector-arguments. zeroing (F-30): a removed interval gets -inf or the threshold itself - 0.0 still exceeds a slightly negative tuned threshold and the loop never ends."
-EXPLANATION = EXPLANATION + ADDED_IN_BUILD
+ADDED_IN_ROUND_9 = ' Round 9: the loop-condition of the greedy selection is read in three spellings - any(W > thr), W.max() > thr, W[W.argmax()] > thr - also when the test sits in the middle of a `while True` body behind pure assignments (the engine substitutes them into the test); >= for > is a violation in each.'
+EXPLANATION = EXPLANATION + ADDED_IN_BUILD + ADDED_IN_ROUND_9
 
 ASSUMPTIONS = [
     "Python's ast module and evaluation-order/argument-binding semantics as implemented in skverif/symex.py",
